@@ -20,6 +20,10 @@ Shape S.  The enumerated space is
   x placement  command-line file, second command-line file, header found in cwd, header
                found via the includer's directory, via -I, via -S (<> and ""), .cxx file
                (included / named on the command line)
+               -- and 2 or 3 command-line headers in every ORDER x include relation {none,
+               a>b, a>b>c, a>c+b>c} x how the include is found {includer's directory, -I, -S
+               with <> and "", path relative to cwd} x location of each file {cwd,
+               subdirectory, absolute path} x {#pragma once, include guard}
   x mode       default | -promiscuous
   x command    none | ignoremember | ignoretype | ignoreinvolved | ignorefile (of the main
                file / of the cwd header) | forcetype | forcevisible    (.N next to the source)
@@ -512,6 +516,55 @@ def main():
                          "why_free": getattr(a, "why", {}), "single": info},
                         confirm=confirm)
 
+    # several command-line files: one run per case (order / inclusion / location cannot be
+    # batched), executed before the batched bundles
+    from vf.core import pmap
+    mf = multifile_cases(ck.tier) if (not ck.only or "files" in ck.only) else []
+
+    def mf_one(ic):
+        i, c = ic
+        if ck.expired(reserve=60):
+            return None
+        rd = os.path.join(scratch, "mf-%d" % i)
+        leaks, missing, info = run_multifile(b, c, rd)
+        key = mf_key(c)
+        if leaks is None:
+            ck.note(key, nontrivial=True, outcome="files TOOL-FAILURE", family="files")
+            ck.fail(key + ":rejected", "interrogate fails on valid command-line headers",
+                    {"multifile": c, "direction": "presence", "single": info})
+            return True
+        ck.note(key, nontrivial=True,
+                outcome="files %d %s" % (len(c["names"]), "ok" if not (leaks or missing) else
+                                         ("LEAK" if leaks else "MISSING")),
+                family="files/%d" % len(c["names"]),
+                sample={"case": c, "files": info["files"], "args": info["args"]})
+        for direction, items in (("safety", leaks), ("presence", missing)):
+            if not items:
+                continue
+            root = (direction, "files", c["how"], c["prot"])
+            with ck.lock:
+                seen_root[root] = seen_root.get(root, 0) + 1
+                over = seen_root[root] > 3 or len(ck.violations) + len(ck.known_hit) >= 40
+                if over:
+                    suppressed[str(root)] = suppressed.get(str(root), 0) + 1
+            if over:
+                continue
+
+            def confirm(c=c, direction=direction, i=i):
+                l2, m2, _ = run_multifile(b, c, os.path.join(scratch, "mfc-%d" % i))
+                return True if l2 is None else bool(l2 if direction == "safety" else m2)
+            ck.fail(key + ":" + direction,
+                    "%s: %s" % (direction.upper(), "; ".join("%s %s" % x for x in items)),
+                    {"multifile": c, "direction": direction,
+                     "observed": sorted(x[0] for x in items), "single": info}, confirm=confirm)
+        return True
+    with ck.lock:
+        pass
+    resmf = pmap(mf_one, list(enumerate(mf)), workers=12)
+    stats["tool_runs"] += sum(1 for x in resmf if x)
+    if any(x is None for x in resmf):
+        ck.cap("deadline inside the several-command-line-files family")
+
     # canonical order, simplest first; runs of a chunk execute in parallel worker processes
     chunk = 32
     for i in range(0, len(jobs), chunk):
@@ -535,7 +588,8 @@ def main():
              "non-trivial = the reference model judges at least one identifier of the atom "
              "'present' and at least one 'absent' under that configuration (both directions "
              "are exercised by it)",
-        exhaustive=True, bound="completed bundles: " + ", ".join(names),
+        exhaustive=True, bound="%d command-line-file cases; completed bundles: %s"
+                               % (len(mf), ", ".join(names)),
         assumptions=[
             "a class is an exported class iff it sits in a local file, is not ignored, and it or "
             "one of its declarations has the requested visibility; where only unexportable "
@@ -559,6 +613,121 @@ def main():
             "stays callable through a base class the database lists for it (reachability)"],
         extra=dict(stats, suppressed_duplicate_failures=suppressed,
                    bundles=[{"name": x.name, "atoms": x.n, "configs": len(c)} for x, c in plan]))
+
+
+# ----------------------------------------------- several command-line files, any order
+
+MF_HOW = ("dir", "I", "Sang", "Squo", "cwdrel")
+MF_RELS2 = {"none": [], "a>b": [("a", "b")]}
+MF_RELS3 = {"none": [], "a>b": [("a", "b")], "a>b>c": [("a", "b"), ("b", "c")],
+            "a>c,b>c": [("a", "c"), ("b", "c")]}
+
+
+def multifile_cases(tier):
+    """Every (files, command-line order, include relation, how the include is found,
+    location of each file, re-inclusion protection, mode)."""
+    import itertools
+    out = []
+    locs_uniform = ("cwd", "sub", "abs")
+    for names, rels in ((("a", "b"), MF_RELS2), (("a", "b", "c"), MF_RELS3)):
+        if tier == "thorough":
+            loc_sets = list(itertools.product(locs_uniform, repeat=len(names)))
+        else:
+            loc_sets = [tuple([l] * len(names)) for l in locs_uniform]
+            if len(names) == 2:
+                loc_sets += [("cwd", "sub"), ("sub", "cwd"), ("sub", "abs"), ("abs", "sub")]
+        for rel, edges in rels.items():
+            for how in (MF_HOW if edges else ("-",)):
+                for locs in loc_sets:
+                    if how == "dir" and len(set(locs)) != 1:
+                        continue        # "includer's directory" needs a common directory
+                    for order in itertools.permutations(names):
+                        for prot in ("pragma", "guard"):
+                            for prom in ((False, True) if (len(names) == 2 or tier == "thorough")
+                                         else (False,)):
+                                out.append({"names": list(names), "order": list(order), "rel": rel,
+                                            "edges": [list(e) for e in edges], "how": how,
+                                            "locs": list(locs), "prot": prot, "promiscuous": prom})
+    return out
+
+
+def mf_key(c):
+    return "files:%s:%s:%s:%s:%s/%s" % (",".join(c["order"]), c["rel"], c["how"],
+                                        ",".join(c["locs"]), c["prot"],
+                                        "promiscuous" if c["promiscuous"] else "default")
+
+
+def run_multifile(b, c, rundir):
+    """One interrogate run over 2-3 command-line headers.  Returns (leaks, missing, info)."""
+    shutil.rmtree(rundir, ignore_errors=True)
+    os.makedirs(rundir)
+    shared = c["how"] == "dir"
+    loc = dict(zip(c["names"], c["locs"]))
+
+    def reldir(n):
+        if loc[n] == "cwd":
+            return "."
+        d = ("s" if loc[n] == "sub" else "x") + ("" if shared else n)
+        return d
+
+    def cmdname(n):
+        d = reldir(n)
+        rel = ("%s.h" % n) if d == "." else "%s/%s.h" % (d, n)
+        return os.path.join(rundir, rel) if loc[n] == "abs" else rel
+    atoms = {n: hg.FileAtom("f%s%d" % (n, i)) for i, n in enumerate(c["names"])}
+    flags, files = [], {}
+    for n in c["names"]:
+        inc = []
+        for frm, to in c["edges"]:
+            if frm != n:
+                continue
+            d = reldir(to)
+            if c["how"] == "Sang":
+                inc.append("#include <%s.h>" % to)
+                flags.append("-S" + d)
+            elif c["how"] == "cwdrel":
+                inc.append('#include "%s"' % (("%s.h" % to) if d == "." else "%s/%s.h" % (d, to)))
+            else:
+                inc.append('#include "%s.h"' % to)
+                if c["how"] == "I":
+                    flags.append("-I" + d)
+                elif c["how"] == "Squo":
+                    flags.append("-S" + d)
+        body = "\n".join(inc + [atoms[n].render()])
+        if c["prot"] == "pragma":
+            text = "#pragma once\n" + body
+        else:
+            text = "#ifndef GUARD_%s\n#define GUARD_%s\n%s#endif\n" % (n, n, body)
+        d = reldir(n)
+        files[("%s.h" % n) if d == "." else "%s/%s.h" % (d, n)] = text
+    for rel, text in files.items():
+        pth = os.path.join(rundir, rel)
+        os.makedirs(os.path.dirname(pth), exist_ok=True)
+        with open(pth, "w") as f:
+            f.write(text)
+    args = ["-oc", "o.cxx", "-od", "o.in", "-module", "m", "-library", "l", "-c", "-fnames"] \
+        + sorted(set(flags)) + (["-promiscuous"] if c["promiscuous"] else []) \
+        + [cmdname(n) for n in c["order"]]
+    r = tools.interrogate(b, args, cwd=rundir, timeout=120)
+    info = {"files": files, "args": r.cmd, "rc": r.rc, "stderr": r.err[-600:]}
+    if r.rc != 0 or r.timeout:
+        return None, None, info
+    db = tools.idb_dump(b, [os.path.join(rundir, "o.in")])
+    code = open(os.path.join(rundir, "o.cxx")).read()
+    syms = set(re.findall(r"^EXPORT_FUNC [^;]*?\b(_in[A-Za-z0-9_]+)\(", code, re.M))
+    obs = Observed(db, mentions(code), syms)
+    leaks, missing, n = [], [], {"present": 0, "absent": 0, "free": 0}
+    for name in c["names"]:
+        l, m, nn = judge(atoms[name], "main", c["promiscuous"], None, obs)
+        leaks += [("%s.h: %s" % (name, i), d) for i, d in l]
+        missing += [("%s.h: %s" % (name, i), d) for i, d in m]
+        for k in n:
+            n[k] += nn[k]
+    if obs.wrapper_names != syms:
+        missing.append(("wrappers", "wrapper symbols of the -oc file differ from the database"))
+    info.update(leaks=leaks, missing=missing)
+    shutil.rmtree(rundir, ignore_errors=True)
+    return leaks, missing, info
 
 
 def atom_args(a):
@@ -591,6 +760,17 @@ def atom_from(d):
 def replay(ck, b):
     rp = ck.load_replay()
     d = rp["detail"]
+    if "multifile" in d:
+        leaks, missing, info = run_multifile(b, d["multifile"], os.path.join(ck.scratch(), "replay"))
+        print("case:", rp["key"])
+        for rel, text in info["files"].items():
+            print("--- %s\n%s" % (rel, text))
+        print("cmd:", " ".join(info["args"]), "-> rc", info["rc"])
+        print("leaks:", leaks)
+        print("missing:", missing)
+        ck.cleanup()
+        bad = leaks if d["direction"] == "safety" else missing
+        return 1 if (bad or leaks is None) else 0
     a = atom_from(d["atom"])
     leaks, missing, info = single_case(b, ck.scratch(), a, d["placement"], d["promiscuous"],
                                        d["command"], d.get("backend", "c"), "replay")
